@@ -32,6 +32,9 @@ func runC03(c *Ctx) {
 	c03Masked(c)
 	c02FoundPrefix(c, "C03.found-prefix")
 	c03Squash(c)
+	handoverRule(c, "C03.handover", "dnsdata")
+	c09V4Predicate(c, "C03")
+	c02MapWalk(c, "C03")
 }
 
 func c03Markers(c *Ctx) {
